@@ -659,9 +659,12 @@ def run_shard(ctx):
         rng = ctx.rng(i, 'array')
         case = gen_array_case(rng, ctx.tier, i)
         # JAX compiles once per argument shape (~45 ms each, is_frontier alone goes
-        # through many): JAX routines see every 8th (thorough: 6th) case and only
+        # through many): JAX routines see every 8th (thorough: 6th) case (every 3rd of
+        # the float32-exact near-tie class) and only
         # sets of at most 10 (thorough: 40) points.
         jax_on = (i // len(CLASSES)) % (8 if quick else 6) == 0
+        if case['class'] == 'near32':      # the only near ties JAX can be asked about
+          jax_on = (i // len(CLASSES)) % 3 == 0      # (3: spreads over the shards)
         if len(case['P']) > (10 if quick else 40):
           jax_on = False
         check_array(ctx, case, jax_on=jax_on)
